@@ -35,11 +35,15 @@ theorem gen_gsap_parseNil_empty (grow : Nat → Nat → Nat) (fuel : Nat) (lcp :
     (SS : Slice → GSlice Int32 → Res (GSlice Int32)) (BI : Gen.bitset → List Int → Res Gen.bitset)
     (s : Gen.gsap) (blk : Gen.Block') (flags : Int) (h : blockNG s = 0) :
     gsap_Parse_nilable grow fuel lcp SS BI s true blk flags = Res.ok (s, blk, (0 : Int), ErrEmptyBuffer) := by
-  unfold blockNG at h
+  -- the clamp of the text is normalised to a minimum (any `if`-spelling, either operand order), the test `n == 0`
+  -- is evaluated in whatever spelling / arm order it comes
+  have hmin : Min.min s.GSAPConfig.BlockSize ((Int.ofNat s.ParserBuffer.Data.len) - s.ParserBuffer.W) = 0 := by
+    unfold blockNG at h; rw [← ite_lt_min]; exact h
+  have hmin' : Min.min ((Int.ofNat s.ParserBuffer.Data.len) - s.ParserBuffer.W) s.GSAPConfig.BlockSize = 0 := by
+    rw [Int.min_comm]; exact hmin
   unfold gsap_Parse_nilable
-  simp only [if_true]
-  rw [h]
-  rfl
+  simp only [if_true, gt_iff_lt, ge_iff_le, ite_lt_min, ite_le_min, hmin, hmin']
+  try (first | rfl | simp)
 
 /-- `SaIdx` reads `sa`, `isa`, `bits`, `W`, `len(Data)` only, and `W` only in `mark : sa[r] < W`, which is monotone in
     `W`: the index invariant survives when `W` does not decrease and `len(Data)` does not decrease -/
@@ -109,10 +113,17 @@ theorem gen_gsap_parseNil (grow : Nat → Nat → Nat) (fuel : Nat) (lcp : Slice
     have hGo : gsap_Parse_nilable grow fuel lcp SS BI s true blk flags =
         Res.ok (withW s ((s.ParserBuffer.W.toNat + (ofGSAPs s g).blockN : Nat) : Int), blk,
           (((ofGSAPs s g).blockN : Nat) : Int), Gen.Err.ok) := by
+      have hmin : Min.min s.GSAPConfig.BlockSize ((Int.ofNat s.ParserBuffer.Data.len) - s.ParserBuffer.W) =
+          (((ofGSAPs s g).blockN : Nat) : Int) := by rw [← hnG, ← ite_lt_min]
+      have hmin' : Min.min ((Int.ofNat s.ParserBuffer.Data.len) - s.ParserBuffer.W) s.GSAPConfig.BlockSize =
+          (((ofGSAPs s g).blockN : Nat) : Int) := by rw [Int.min_comm]; exact hmin
+      have hsum' : (((ofGSAPs s g).blockN : Nat) : Int) + s.ParserBuffer.W =
+          ((s.ParserBuffer.W.toNat + (ofGSAPs s g).blockN : Nat) : Int) := by omega
       unfold gsap_Parse_nilable
       simp only [if_true]
-      simp only [hnG]
-      rw [if_neg hn0, hsum]
+      simp only [gt_iff_lt, ge_iff_le, ite_lt_min, ite_le_min, hmin, hmin']
+      gs_ite
+      first | rw [hsum] | rw [hsum']
     rw [hpn]
     refine ⟨_, hGo, rfl, rfl, Or.inl rfl, rfl, ?_, ?_⟩
     · show ((s.ParserBuffer.W.toNat + (ofGSAPs s g).blockN : Nat) : Int) =
